@@ -26,26 +26,30 @@ from pbt.core import Check, Inconclusive, Violation, h16
 
 LEVEL = "exploration"
 RULE = (
-    "A case = one isotherm descriptor x one format (csv / xl / aif) x one target (string / file; Excel: file): class "
-    "drawn from {point, model, metadata-only} (weights 4:3:3), any of the 10x27x19x2 unit configurations, registry or "
-    "custom adsorbate, temperature in K or degC (incl. exactly 0 degC), material with 0-4 properties, 0-4 'healthy' "
-    "metadata entries drawn from the format's value domain (CSV/AIF: keys without separator/blank, printable text "
-    "without separator/quote/edge blanks that cast_string-independent rules do not read as number/bool/none/list, "
-    "non-negative ints, finite floats, bools; Excel: any printable text, floats, bools) and AT MOST ONE 'special' "
-    "entry: in the round-trip checks a suspect in-domain class (negative int, keys starting with data/model/sample_, AIF "
-    "typed keys, Excel ints), in the outside checks a value outside the domain (number/bool/none/list-looking text, "
-    "separator, quotes, newline, edge blanks, lists, tuples, dicts, None, non-finite floats, non-ASCII / blank keys...). "
-    "Point data: 1-12 ads points + optional des leg on a 1e-6 grid or at full precision, branch guessed / explicit / all "
-    "des / interleaved, extra float / int / text columns, custom column keys; models: every model class with generated "
-    "parameters, ranges and rmse (instance route, incl. NaN defaults) or fitted (Henry/Langmuir/Freundlich). Oracle "
-    "inside the domain: export+import completes; class, material name + properties, adsorbate, temperature, 7 unit "
+    "A case = one isotherm descriptor x one format (csv / xl / aif) x one target (string / file; Excel: file; str or "
+    "pathlib.Path; CSV separator , ; | tab): class drawn from {point, model, metadata-only} (weights 4:3:3), any of the "
+    "10x27x19x2 unit configurations, registry or custom adsorbate, temperature in K or degC (table incl. exactly 0 degC, or "
+    "a float), material with 0-4 properties, 0-4 'healthy' metadata entries from the format's value domain (CSV/AIF: "
+    "keys without separator/blank, printable text without separator/quote/edge blanks that python rules independent of "
+    "cast_string do not read as number/bool/none/list, non-negative ints, finite floats, bools; Excel: any printable text, "
+    "floats, bools) and AT MOST ONE 'special' entry (meta or material property): in the round-trip checks a suspect "
+    "in-domain class (negative int, keys starting with data / model / sample_ / _material_, the seven AIF-typed names, "
+    "Excel ints), in the outside checks one value outside the domain (number/bool/none/list-looking text, empty text, "
+    "separator, quotes, line breaks, control characters, edge blanks, lists, tuples, dicts, None, non-finite floats, keys "
+    "with separator / blank / quote / non-ASCII ...). All categorical choices are drawn first from explicit weighted "
+    "sampled_from lists, long lists last. Point data: 1-12 ads points + optional des leg on a 1e-6 grid or at full "
+    "precision, branch guessed / explicit / all des / all ads / interleaved, extra float / int / text columns, custom "
+    "column keys, int-valued loadings; models: each of the 16 model classes with generated parameters, ranges and rmse "
+    "(instance route, also without ranges = NaN) or fitted (Henry/Langmuir/Freundlich). Oracle inside the domain: "
+    "export+import completes without any exception; class, material name + properties, adsorbate, temperature, 7 unit "
     "labels, metadata (value and type, no extra / missing key), every data column (numeric: |d| <= 0.5e-8 + 1e-12|x|; "
-    "text: equal), branch marks and row order, model name / parameters / ranges / rmse / branch are preserved; "
-    "r == x is asserted when the compared content is type-identical and exactly equal; it is also required when the "
-    "content is python-equal (3 == 3.0). Outside the domain: pgError at export or import, or an exact round trip; a "
-    "changed value / dropped key or a foreign exception type is a violation. Non-trivial = >= 1 metadata or material "
-    "property entry beyond the required ones (round trip) resp. a completed verdict on the special entry (outside); "
-    "distinct by descriptor hash."
+    "text: equal), column keys, branch marks and row order, model name / parameters / ranges / rmse / branch are "
+    "preserved; r == x (both directions) is asserted when the compared content is exactly equal and type-identical, and "
+    "is also required for python-equal content (Excel 3 -> 3.0). Outside the domain: pgError at export or import, or an "
+    "exact round trip of the entry AND of everything else; a changed value / dropped key / foreign exception type is a "
+    "violation. Thorough tier adds an atheris (libFuzzer) campaign on one-entry CSV round trips with the same oracle. "
+    "Non-trivial = >= 1 metadata or material property entry beyond the required ones (round trip) resp. a completed "
+    "verdict (refused or exact) on the special entry (outside); distinct by descriptor hash."
 )
 ASSUMPTIONS = [
     "documented precision = pygaps.parsing._PARSER_PRECISION = 8 decimals: numeric data may differ by 0.5e-8 (+1e-12 "
@@ -246,7 +250,7 @@ def _outside_classes(fmt):
     add("nonfinite", k, [_enc_nonfinite("nan"), _enc_nonfinite("inf"), _enc_nonfinite("-inf")])
     add("empty_text", k, st.just(""))
     add("newline", k, ["a\nb", "a\r\nb", "line1\nkey2,7", "x\n", "\ny", "a\rb"])
-    add("control", k, ["a\x0bb", "a\x1fb", "a\x85b", "a\u2028b", "tab\there"])
+    add("control", k, ["a\x0bb", "a\x1fb", "a\x85b", "a\u2028b", "tab\there", "nul\x00"])
     if fmt == "xl":
         add("long_text", k, st.just("x" * 40000))
         return c, w
@@ -772,6 +776,14 @@ def _labels(desc, ctx):
     if desc["special"]:
         ctx.label("special:" + desc["special"]["cls"])
     ctx.label(f"n_meta:{min(len(desc['meta']), 3)}")
+    for v in list(desc["meta"].values()) + [v for k, v in desc["material"].items() if k not in ("name", "density", "molar_mass")]:
+        ctx.label("value:" + type(v).__name__)
+    if desc.get("sep", ",") != ",":
+        ctx.label("csv_sep:other")
+    if (desc.get("point") or {}).get("keys"):
+        ctx.label("custom_column_keys")
+    if (desc.get("point") or {}).get("int_loading"):
+        ctx.label("int_loading")
 
 
 # ---- check: round trip inside the domain -------------------------------------------------------------------------------
@@ -874,10 +886,100 @@ def check_outside(desc, ctx):
     try:
         compare_core(desc, x, r, skip_keys=((sp["where"], sp["key"]),))
     except Violation as v:
-        raise Violation(f"(with {sp['cls']} entry {sp['key']!r}={want!r}) " + v.message, tag=f"outside:{sp['cls']}:collateral:{v.tag}")
+        raise Violation(f"(with {sp['cls']} entry {sp['key']!r}={want!r}) " + v.message, tag=f"outside:collateral:{v.tag}")
     ctx.label("exact:" + sp["cls"])
     ctx.label("kind:" + desc["kind"], "target:" + desc["target"], "where:" + sp["where"])
     ctx.nt([desc["fmt"], "exact", h16(desc)], desc)
+
+
+# ---- coverage-guided campaign on the CSV codec (thorough tier; subprocess: pbt/atheris_C07.py) --------------------------
+def classify_value(v, sep=","):
+    """'in:<cls>' / 'out:<cls>' for an arbitrary python scalar against the CSV / AIF value domain (python rules only)."""
+    if isinstance(v, bool):
+        return "in:bool"
+    if isinstance(v, int):
+        return "in:negint" if v < 0 else "in:int"
+    if isinstance(v, float):
+        return "in:float" if math.isfinite(v) else "out:nonfinite"
+    if v is None:
+        return "out:none"
+    if not isinstance(v, str):
+        return "out:other"
+    if v == "":
+        return "out:empty_text"
+    if "\n" in v or "\r" in v:
+        return "out:newline"
+    if not v.isprintable():
+        return "out:control"
+    if sep in v:
+        return "out:separator"
+    if "'" in v or '"' in v:
+        return "out:quote"
+    if v != v.strip():
+        return "out:edge_blank"
+    if v.lower() in ("true", "false"):
+        return "out:booltext"
+    if v.lower() == "none":
+        return "out:nonetext"
+    if v[0] in "[(" or v[-1] in "])":
+        return "out:listtext"
+    if sniffable(v):
+        return "out:numtext"
+    return "in:text"
+
+
+def minimal_case(fmt, key, value, cls, target="string"):
+    """Metadata-only isotherm descriptor with one entry (used by the fuzz campaign and for replay of its findings)."""
+    d = {"fmt": fmt, "target": target if fmt != "xl" else "file", "kind": "base", "adsorbate": "nitrogen", "T": 77.0,
+         "units": {"pressure_mode": "absolute", "pressure_unit": "bar", "loading_basis": "molar", "loading_unit": "mmol",
+                   "material_basis": "mass", "material_unit": "g", "temperature_unit": "K"},
+         "material": {"name": "m-1"}, "meta": {}, "path_kind": "str",
+         "special": {"cls": cls, "key": key, "value": value, "where": "meta"}}
+    if fmt == "csv":
+        d["sep"] = ","
+    return d
+
+
+def check_fuzz_campaign(desc, ctx):
+    """desc = {"runs": N, "seed": S, "corpus": "seeded"|"empty"}: run the atheris campaign in a subprocess and report the
+    violations it printed. Skipped (counted inconclusive) when atheris cannot be imported."""
+    import json
+    import subprocess
+    import sys
+    env = dict(os.environ)
+    probe = subprocess.run([sys.executable, "-c", "import atheris"], env=env, capture_output=True)
+    if probe.returncode != 0:
+        ctx.label("atheris_unavailable")
+        raise Inconclusive()
+    cmd = [sys.executable, "-W", "ignore", "-m", "pbt.atheris_C07", "--runs", str(desc["runs"]), "--seed", str(desc["seed"]),
+           "--corpus", desc["corpus"]]
+    p = subprocess.run(cmd, env=env, capture_output=True, text=True, cwd=os.path.dirname(os.path.dirname(os.path.dirname(
+        os.path.abspath(__file__)))), timeout=3600)
+    out = p.stdout + "\n" + p.stderr
+    stats = None
+    viols = []
+    for line in out.splitlines():
+        if line.startswith("FUZZ-STATS "):
+            stats = json.loads(line[len("FUZZ-STATS "):])
+        elif line.startswith("VIOLATION "):
+            viols.append(json.loads(line[len("VIOLATION "):]))
+    if stats is None:
+        from pbt.core import HarnessError
+        raise HarnessError(f"fuzz campaign produced no statistics (exit {p.returncode}): {out[-1500:]}")
+    for k, v in stats.items():
+        ctx.labels[f"fuzz_{k}"] += v
+    if viols:
+        v = viols[0]
+        raise Violation(f"atheris campaign ({desc}) found {len(viols)} class(es); first: check {v['check']} case "
+                        f"{json.dumps(v['case'], ensure_ascii=False)}: {v['message']}", tag="fuzz:" + v["tag"])
+    ctx.nt(["fuzz", desc["runs"], desc["seed"], desc["corpus"], stats["runs"]], dict(desc, stats=stats))
+
+
+def cases_fuzz(tier, seed):
+    if tier != "thorough":
+        return []
+    return [{"runs": 60000, "seed": int(seed) % (2 ** 31 - 1) + 1, "corpus": "seeded"},
+            {"runs": 60000, "seed": int(seed) % (2 ** 31 - 1) + 2, "corpus": "empty"}]
 
 
 def _mk(fmt, outside):
@@ -944,7 +1046,8 @@ def kf_aif_source_detection(check_name, desc, viol):
     if desc["fmt"] != "aif":
         return False
     if desc["target"] == "string":
-        return _exc(viol) == "OSError" and "File name too long" in viol.message
+        return (_exc(viol) == "OSError" and "File name too long" in viol.message) or \
+            (_exc(viol) == "ValueError" and "embedded null" in viol.message)
     return check_name == "aif_outside" and _exc(viol) in ("ValueError", "RuntimeError") and "iso.aif:" in viol.message
 
 
@@ -994,6 +1097,12 @@ def kf_cast_string_list_errors(check_name, desc, viol):
         _exc(viol) in ("SyntaxError", "ValueError") and \
         ("invalid syntax" in viol.message or "malformed node or string" in viol.message or "unterminated" in viol.message
          or "was never closed" in viol.message or "unmatched" in viol.message)
+
+
+def kf_csv_nul_in_text(check_name, desc, viol):
+    """C07-11: a CSV text with a NUL character makes open() raise ValueError in isotherm_from_csv."""
+    return desc["fmt"] == "csv" and desc["target"] == "string" and _exc(viol) == "ValueError" and \
+        "embedded null byte" in viol.message and "\x00" in str(_sp(desc).get("value"))
 
 
 # -- open ---------------------------------------------------------------------------------------------------------------
@@ -1085,3 +1194,7 @@ def kf_xl_foreign_exception(check_name, desc, viol):
     cls = _sp(desc).get("cls")
     return desc["fmt"] == "xl" and cls in ("list_int", "list_float", "list_nested", "list_text", "tuple", "dict", "long_text") \
         and viol.tag == f"outside:{cls}:foreign:Exception"
+CHECKS.append(Check("csv_codec_fuzz", check_fuzz_campaign, mode="enum", cases=cases_fuzz, max_shards=2,
+                    rule="thorough tier only: atheris/libFuzzer campaign (hypothesis fuzz_one_input as mutator, fixed -runs and "
+                         "-seed, seeded and empty corpus) on one-entry CSV round trips; coverage from string_utilities and "
+                         "parsing.csv; oracle and known-finding classes identical to csv_roundtrip / csv_outside"))
